@@ -1,4 +1,5 @@
 """C10 — attributes and descriptive metadata are returned exactly as last set."""
+import os
 from engine.h4v import H, libhdf_units, libmfhdf_units
 
 META = dict(
@@ -25,8 +26,8 @@ def plan(ctx, tier, seed):
                     defs={"MODE": mode, "ROPEN": ropen, "MEMIO_DISK_SZ": 8192}, unwind=5000, kind="S", timeout=2000, symbolic="attribute value bytes",
                     bound="concrete attribute history", group="C10.S1", hang_is_violation=True))
     lower = ["mfhdf/src/putget.c", "mfhdf/src/var.c", "mfhdf/src/array.c", "mfhdf/src/putgetg.c", "mfhdf/src/mfsd.c", "mfhdf/src/cdf.c", "mfhdf/src/attr.c", "mfhdf/src/dim.c"]
-    for mode in (0, 1):
-        hs.append(H("C10.S2.sd.m%d" % mode, "C10", src="harness/C10/s2_sdattr.c", units=libhdf_units() + libmfhdf_units(), models=["memio", "herr", "memloops", "printf"],
-                    defs={"MODE": mode, "MEMIO_DISK_SZ": 8192}, unwind=5000, kind="S", timeout=1500, mf=True, lower=lower, symbolic="attribute / metadata value bytes",
+    for mode, reopen in ((0, 0), (1, 0)) + (((0, 1),) if (tier != "quick" or os.environ.get("H4V_C10_REOPEN") == "1") else ()):
+        hs.append(H("C10.S2.sd.m%d%s" % (mode, ".reopen" if reopen else ""), "C10", src="harness/C10/s2_sdattr.c", units=libhdf_units() + libmfhdf_units(), models=["memio", "herr", "memloops", "printf"],
+                    defs={"MODE": mode, "REOPEN": reopen, "MEMIO_DISK_SZ": 8192}, unwind=5000, kind="S", timeout=3000 if reopen else 1500, mf=True, lower=lower, symbolic="attribute / metadata value bytes",
                     bound="one SD session, concrete call history", group="C10.S2", hang_is_violation=True))
     return hs
